@@ -210,7 +210,7 @@ class Sandbox:
 class Server:
     """A tftpd child process in a sandbox."""
 
-    def __init__(self, sandbox, single=False, ro=False, ow=False, clean=True, dup=0, extra=(), host=HOST):
+    def __init__(self, sandbox, single=False, ro=False, ow=False, clean=True, dup=0, extra=(), host=HOST, rd_only=False):
         self.sb = sandbox
         self.host = host
         self.flags = {"single": single, "ro": ro, "ow": ow, "clean": clean, "shared": sandbox.shared, "dup": dup}
@@ -218,6 +218,9 @@ class Server:
         args = [C.repo_bin("tftpd"), "-i", host, "-p", str(self.port)]
         if sandbox.shared:
             args += ["-d", sandbox.send]
+        elif rd_only:
+            # only -d and -rd: the send directory must fall back to -d
+            args += ["-rd", sandbox.recv, "-d", sandbox.send]
         else:
             args += ["-d", sandbox.base, "-sd", sandbox.send, "-rd", sandbox.recv]
         if single:
@@ -293,15 +296,18 @@ def recv_reply(sock, timeout):
         return None, "refused"
 
 
-def first_reply(server, reqbytes, grace, patient=False):
+def first_reply(server, reqbytes, grace, patient=False, a_sock=None):
     """Sends the request from a fresh endpoint A and a sentinel (a read request for a file that does
     not exist, which a live listener always answers with ERROR 1) from a second endpoint B right behind it.  The listener is one
     thread, so once B has its answer the listener has finished with the request: anything A
     still gets can only come from a worker thread, for which `grace` seconds are allowed.
     Returns (socket A, reply bytes or None, source address)."""
     import select
-    a = socket.socket(socket.AF_INET, socket.SOCK_DGRAM)
-    a.bind((HOST, 0))
+    if a_sock is not None:
+        a = a_sock          # an endpoint with a history (it had a transfer before)
+    else:
+        a = socket.socket(socket.AF_INET, socket.SOCK_DGRAM)
+        a.bind((HOST, 0))
     bsock = socket.socket(socket.AF_INET, socket.SOCK_DGRAM)
     bsock.bind((HOST, 0))
     a.sendto(reqbytes, (HOST, server.port))
@@ -331,11 +337,11 @@ def first_reply(server, reqbytes, grace, patient=False):
     return a, reply[0], reply[1]
 
 
-def exchange(server, reqbytes, sid, complete_uploads=True, patient=False, track=True):
+def exchange(server, reqbytes, sid, complete_uploads=True, patient=False, track=True, a_sock=None):
     """One datagram to the listening port from a fresh endpoint; first reply; for an accepted
     upload, one short block; then the change of the sandbox.  Returns the trace event."""
     sb = server.sb
-    sock, b, addr = first_reply(server, reqbytes, (patient if isinstance(patient, float) else 1.5) if patient else 0.03, bool(patient))
+    sock, b, addr = first_reply(server, reqbytes, (patient if isinstance(patient, float) else 1.5) if patient else 0.03, bool(patient), a_sock)
     ev = {"e": "req", "sid": sid, "bytes": codes(reqbytes[:516]), "known": False, "tried": False, "completed": False,
           "up": "", "delta": [], "probe": False}
     upbytes = None
@@ -356,11 +362,11 @@ def exchange(server, reqbytes, sid, complete_uploads=True, patient=False, track=
                 upbytes = ("<%s>" % upcid).encode()[:7]
                 ev["tried"] = True
                 ev["up"] = upcid
-                if ev["from"] == "worker":
+                if ev["from"] == "worker" and a_sock is None:
                     sock.connect(addr)      # a vanished worker then shows as ECONNREFUSED at once
                 for tmo in ((1.0, 3.0) if patient else (0.5, 1.5)):
                     try:
-                        if ev["from"] == "worker":
+                        if ev["from"] == "worker" and a_sock is None:
                             sock.send(data(1, upbytes))
                         else:
                             sock.sendto(data(1, upbytes), addr)
@@ -381,7 +387,8 @@ def exchange(server, reqbytes, sid, complete_uploads=True, patient=False, track=
             ev["reply"] = {"k": "error", "code": r["code"]}
         else:
             ev["reply"] = {"k": "garbage"}
-    sock.close()
+    if a_sock is None:
+        sock.close()
     ev["delta"] = sb.delta(ev["up"], upbytes) if track else []
     return ev
 
